@@ -112,7 +112,7 @@ def concrete_repodata(case):
     if case['content'] == 'missing':
         return None
     if case['content'] == 'notjson':
-        return b'\x00not json{'
+        return b'{not json'
     doc = from_wire(case['doc'])
     if case.get('stale_is_signer') and isinstance(doc.get('signatures'), dict):
         # the model filed the stale entry under the signer's own public key: use the real one
